@@ -26,6 +26,9 @@ THEOREMS = [
     "Rtr.C19.ip_roundtrip", "Rtr.C19.ip_accepts_pton", "Rtr.C19.ipStrCmp_fmt",
 ]
 
+PROOF_MODULES = ["RtrProofs.IpTextDigits", "RtrProofs.IpTextParse", "RtrProofs.IpTextLang", "RtrProofs.IpTextFmt",
+                 "RtrProofs.IpTextIp", "RtrProofs.IpTextDefined", "RtrModel.IpText"]
+
 HEXD = "0123456789abcdefABCDEF"
 EDGE_WORDS = [1, 0xf, 0x10, 0xff, 0x100, 0xfff, 0x1000, 0x7fff, 0x8000, 0xffff, 0xa, 0xabcd, 0xfffe]
 EDGE_OCT = [0, 1, 9, 10, 99, 100, 127, 128, 199, 200, 254, 255]
@@ -432,6 +435,16 @@ def tag_of(line):
 def run(pid, tier):
     rep = vlib.Report(pid, tier)
     proved = vlib.prove(rep, MODULES, THEOREMS, extra_targets=["ipdriver"])
+    if proved and tier == "thorough":
+        for m in MODULES + PROOF_MODULES:
+            ok, out = vlib.leanchecker(m)
+            if not ok:
+                proved = False
+                rep.build_log = "leanchecker %s failed:\n%s" % (m, out)
+                for t in THEOREMS:
+                    rep.obligations[t] = False
+                break
+        rep.cov["leanchecker"] = "ok" if proved else "FAILED"
     drv = vlib.driver_path("ipdriver")
     if not os.path.exists(drv):
         ok, log = vlib.lake_build(["ipdriver"])
